@@ -1,6 +1,76 @@
-(* Ops/C01.v — protocol entry points for property C01 (stub until the model is built). *)
-From Coq Require Import List String.
-From PrefVerif Require Import Lib.Val.
+(* Ops/C01.v — protocol entry points for the ordinal file model (Model/OrdIO.v).
+   instance  ::= ( (file_name title description data_type modification_type relates_to related_files
+                    publication_date modification_date)  num_alternatives  num_voters
+                   ((id name) ...)  num_unique_orders  (order ...)  ((order mult) ...) )
+   order ::= ((id ...) ...) ; text ::= (code points) *)
+From Coq Require Import List ZArith NArith String.
+From PrefVerif Require Import Lib.Val Lib.Dec Lib.PyStr Model.Meta Model.OrdIO.
 Import ListNotations.
+Open Scope string_scope.
 
-Definition ops : optable := [].
+Definition d_text (v : val) : text := dlist dN v.
+Definition e_text (t : text) : val := elist eN t.
+Definition d_order (v : val) : order := dlist (dlist dN) v.
+Definition e_order (o : order) : val := elist (elist eN) o.
+
+Definition d_meta (f : val) (na nv : N) (names : val) : meta :=
+  mkMeta (d_text (dnth 0 f)) (d_text (dnth 1 f)) (d_text (dnth 2 f)) (d_text (dnth 3 f)) (d_text (dnth 4 f))
+         (d_text (dnth 5 f)) (d_text (dnth 6 f)) (d_text (dnth 7 f)) (d_text (dnth 8 f))
+         na nv (dlist (dpair dN d_text) names) [].
+
+Definition d_inst (v : val) : oinst :=
+  mkOinst (d_meta (dnth 0 v) (dN (dnth 1 v)) (dN (dnth 2 v)) (dnth 3 v))
+          (dN (dnth 4 v)) (dlist d_order (dnth 5 v)) (dlist (dpair d_order dN) (dnth 6 v)).
+
+Definition e_inst (i : oinst) : val :=
+  let m := o_meta i in
+  VL [ VL [e_text (file_name m); e_text (title m); e_text (description m); e_text (data_type m);
+           e_text (modification_type m); e_text (relates_to m); e_text (related_files m);
+           e_text (publication_date m); e_text (modification_date m)];
+       eN (num_alternatives m); eN (num_voters m);
+       elist (epair eN e_text) (alt_names m);
+       eN (o_num_unique i); elist e_order (o_orders i); elist (epair e_order eN) (o_mult i) ].
+
+(* c01.write : instance -> text *)
+Definition op_write (v : val) : val := e_text (ord_write (d_inst v)).
+
+(* c01.parse : (autocorrect header_only data_type (line ...)) -> result instance *)
+Definition op_parse (v : val) : val :=
+  eresult e_inst (ord_parse (dbool (dnth 0 v)) (dbool (dnth 1 v)) (meta0 (d_text (dnth 2 v)))
+                            (dlist d_text (dnth 3 v))).
+
+Definition cut (mode : nat) (s : text) : list text :=
+  match mode with 0 => lines_file s | 1 => lines_str s | _ => lines_url s end.
+
+(* c01.parse_text : (autocorrect header_only mode data_type text [file_name]) -> result instance
+   mode 0 = readlines (parse_file), 1 = splitlines (parse_str), 2 = stripped splitlines (parse_url);
+   file_name = the value the entry point stores before parsing (basename of the path; default empty) *)
+Definition op_parse_text (v : val) : val :=
+  eresult e_inst (ord_parse (dbool (dnth 0 v)) (dbool (dnth 1 v))
+                            (set_file_name (meta0 (d_text (dnth 3 v))) (d_text (dnth 5 v)))
+                            (cut (dnat (dnth 2 v)) (d_text (dnth 4 v)))).
+
+(* c01.tokenize : text -> (token ...) *)
+Definition op_tokenize (v : val) : val := elist e_text (tokenize (d_text v)).
+
+(* c01.order_str : order -> text ;  c01.order_of_str : text -> result order *)
+Definition op_order_str (v : val) : val := e_text (order_str (d_order v)).
+Definition op_order_of_str (v : val) : val := eresult e_order (order_of_str (d_text v)).
+
+(* c01.roundtrip : instance -> (wf  sorted_view  parse(readlines(write i))  parse(splitlines(write i))) *)
+Definition op_roundtrip (v : val) : val :=
+  let i := d_inst v in
+  let t := ord_write i in
+  let m0 := meta0 (data_type (o_meta i)) in
+  VL [ ebool (wf_ord i); e_inst (sorted_view i);
+       eresult e_inst (ord_parse false false m0 (lines_file t));
+       eresult e_inst (ord_parse false false m0 (lines_str t)) ].
+
+(* c01.with_default_file_name : (basename instance) -> instance *)
+Definition op_default_name (v : val) : val :=
+  e_inst (with_default_file_name (d_text (dnth 0 v)) (d_inst (dnth 1 v))).
+
+Definition ops : optable :=
+  [ ("c01.write", op_write); ("c01.parse", op_parse); ("c01.parse_text", op_parse_text);
+    ("c01.tokenize", op_tokenize); ("c01.order_str", op_order_str); ("c01.order_of_str", op_order_of_str);
+    ("c01.roundtrip", op_roundtrip); ("c01.with_default_file_name", op_default_name) ].
